@@ -436,6 +436,64 @@ func ruleS3(r *Run) {
 		} else {
 			r.Check(okCopy, keyB, fd.Pos(), "copy source has an upper bound", "the body is copied from buffer[8:] without an upper bound: bytes beyond what this datagram carried are delivered")
 		}
+		// exact: the body is taken only where declared == received (both directions excluded)
+		parents := parentMap(fd.Body)
+		ast.Inspect(fd.Body, func(m ast.Node) bool {
+			call, ok := m.(*ast.CallExpr)
+			if !ok || !IsBuiltin(info, call, "copy") || len(call.Args) != 2 {
+				return true
+			}
+			se, ok := ast.Unparen(call.Args[1]).(*ast.SliceExpr)
+			if !ok || identObj(info, se.X) != bufObj {
+				return true
+			}
+			eq, notMore, notLess := false, false, false
+			for _, fc := range factsWithSwitch(parents, call) {
+				be, ok := fc.e.(*ast.BinaryExpr)
+				if !ok || !mentions(be, nObj) || !mentions(be, lenObj) {
+					continue
+				}
+				op := be.Op
+				if fc.neg {
+					switch op {
+					case token.EQL:
+						op = token.NEQ
+					case token.NEQ:
+						op = token.EQL
+					case token.GTR:
+						op = token.LEQ
+					case token.GEQ:
+						op = token.LSS
+					case token.LSS:
+						op = token.GEQ
+					case token.LEQ:
+						op = token.GTR
+					}
+				}
+				if mentions(be.Y, lenObj) && !mentions(be.X, lenObj) { // mirror: the declared length on the left
+					switch op {
+					case token.GTR:
+						op = token.LSS
+					case token.GEQ:
+						op = token.LEQ
+					case token.LSS:
+						op = token.GTR
+					case token.LEQ:
+						op = token.GEQ
+					}
+				}
+				switch op {
+				case token.EQL:
+					eq = true
+				case token.LEQ:
+					notMore = true
+				case token.GEQ:
+					notLess = true
+				}
+			}
+			r.Check(eq || notMore && notLess, "body taken only when the declared length equals the bytes received in "+s.pkg+"."+s.fn, call.Pos(), "declared == received on this path", "the body is copied out although the path only excludes one direction of the comparison between the declared length and the bytes received: a datagram that carries more (or less) than its header says is cut to the declared length (or padded) and handed on as if it were the bytes that were sent, instead of being rejected")
+			return true
+		})
 	}
 }
 
